@@ -57,7 +57,7 @@ def _damage_set(f):
     for _ in range(n):
         k = f.choice(["bin_rep", "bin_rep", "bin_rep_field", "bin_rep_field", "bin_cut", "bin_del", "bin_ins",
                       "bin_dup", "txt_flip", "txt_flip", "txt_set", "txt_set", "txt_cut", "line_lost",
-                      "line_dup", "line_swap", "nul_tail", "stale_tail", "empty", "hdr_only", "txt_del", "line_kind"])
+                      "line_dup", "line_swap", "nul_tail", "stale_tail", "empty", "hdr_only", "txt_del", "line_kind", "bf2_tt"])
         if k == "bin_rep":
             out.append([k, f.random(), f.choice(CLASSES)])
         elif k == "bin_rep_field":
@@ -74,6 +74,8 @@ def _damage_set(f):
             out.append([k, f.random(), f.choice(TXT_CHARS)])
         elif k == "line_swap":
             out.append([k, f.random(), f.random()])
+        elif k == "bf2_tt":
+            out.append([k, f.random(), f.choice(["-1", "-1", "-16", "00", "+1", "FF"])])
         elif k == "stale_tail":
             out.append([k, f.choice(["00\n", "4246330000\n", "\n\nAB\n", ":0000FF00\n", "k: v\n"])])
         else:
@@ -86,7 +88,7 @@ def gen(st, tier):
     f = st["faults"]
     kind = w.choice(["bf3", "bec2", "bec2", "bf2", "bf2"])
     if kind == "bf2":
-        spec = {"kind": "bf2", "bf2": bf2gen.gen_spec(w, max_image=600), "via": w.choice(["path", "stream"])}
+        spec = {"kind": "bf2", "bf2": bf2gen.gen_spec(w, max_image=600, p_unknown=0.12), "via": w.choice(["path", "stream"])}
     else:
         spec = files.file_spec(w, kind=kind, p_enc=0.3, max_len=120)
         # make downstream parsers see near-valid input
@@ -186,6 +188,20 @@ def apply_damage(orig, dset, crlf):
                     j = _pos(d[2], len(lines))
                     lines[i], lines[j] = lines[j], lines[i]
                 data = b"".join(lines)
+        elif k == "bf2_tt":
+            # bit rot in the tag-type byte of one BF2 data line (a later line of a section then has a lower or
+            # an unrelated type)
+            lines = data.splitlines(keepends=True)
+            cand = [i for i, ln in enumerate(lines) if ln[:1] == b":" and len(ln) >= 9]
+            if cand:
+                i = cand[_pos(d[1], len(cand))]
+                try:
+                    t = int(lines[i][5:7], 16)
+                    nt = {"-1": t - 1, "-16": t - 16, "00": 0, "+1": t + 1, "FF": 0xFF}[d[2]] & 0xFF
+                    lines[i] = lines[i][:5] + b"%02X" % nt + lines[i][7:]
+                    data = b"".join(lines)
+                except ValueError:
+                    pass
         elif k == "line_kind":
             # a near-valid BF2 text: one header / instruction line written in the other line syntax
             # ("#>NAME K=V" <-> "##NAME: text"), name kept
